@@ -31,6 +31,13 @@ type functionOperator struct {
 	call         FunctionCall
 	scalarPoints [][]float64
 	pointBuf     []promql.Point
+
+	// Step cursor of scalar(), which has a value at every step of the query
+	// even when its argument has no series at all.
+	stepsBatch  int
+	step        int64
+	maxt        int64
+	currentStep int64
 }
 
 type noArgFunctionOperator struct {
@@ -109,6 +116,13 @@ func NewFunctionOperator(funcExpr *parser.Call, call FunctionCall, nextOps []mod
 		vectorIndex:  0,
 		scalarPoints: scalarPoints,
 		pointBuf:     make([]promql.Point, 1),
+		stepsBatch:   stepsBatch,
+		step:         opts.Step.Milliseconds(),
+		maxt:         opts.End.UnixMilli(),
+		currentStep:  opts.Start.UnixMilli(),
+	}
+	if f.step == 0 {
+		f.step = 1
 	}
 
 	for i := range funcExpr.Args {
@@ -160,6 +174,23 @@ func (o *functionOperator) Next(ctx context.Context) ([]model.StepVector, error)
 	vectors, err := o.nextOps[o.vectorIndex].Next(ctx)
 	if err != nil {
 		return nil, err
+	}
+
+	if o.funcExpr.Func.Name == "scalar" {
+		if len(vectors) == 0 {
+			// The argument has nothing (left): scalar() is NaN at the remaining steps.
+			if o.currentStep > o.maxt {
+				return nil, nil
+			}
+			pool := o.nextOps[o.vectorIndex].GetPool()
+			vectors = pool.GetVectorBatch()
+			for i := 0; i < o.stepsBatch && o.currentStep <= o.maxt; i++ {
+				vectors = append(vectors, pool.GetStepVector(o.currentStep))
+				o.currentStep += o.step
+			}
+		} else {
+			o.currentStep += o.step * int64(len(vectors))
+		}
 	}
 
 	if len(vectors) == 0 {
